@@ -52,6 +52,16 @@ func Accept(q *world.Req, chain []world.Entry, name func(hid int) string) []Find
 		}
 		return false
 	}
+	// startableBetween ignores handlers whose dependencies cannot be resolved: they never log a
+	// start (the framework panics instead, and a built-in Recovery may answer that invisibly).
+	startableBetween := func(a, b int) bool {
+		for i := a; i < b && i < len(chain); i++ {
+			if chain[i].HID >= 0 && chain[i].Shape != world.ShMissing {
+				return true
+			}
+		}
+		return false
+	}
 	recoveryBetween := func(a, b int) bool {
 		for i := a; i < b && i < len(chain); i++ {
 			if chain[i].Kind == world.HkRecovery {
@@ -98,9 +108,40 @@ func Accept(q *world.Req, chain []world.Entry, name func(hid int) string) []Find
 			}
 		}
 	}
-	for _, e := range q.Events {
+	// frameworkPanic accounts for a panic nobody raised through the simulator. The one legitimate
+	// source between two handlers is the failed dependency resolution of the next handler (it
+	// asks for a type nobody mapped): that handler counts as started — and may not be tried again.
+	lastRefuse := false
+	frameworkPanic := func() {
+		if lastRefuse {
+			return // the underlying writer refused a status while a return value was rendered
+		}
+		for i := pos; i < len(chain); i++ {
+			if chain[i].HID < 0 {
+				continue
+			}
+			if chain[i].Shape == world.ShMissing {
+				pos = i + 1
+				panicIdx = i
+				return
+			}
+			break
+		}
+		fail("R6-unexplained-panic", "the framework panicked between handlers although the next handler ("+name(nextSim(chain, pos))+") can be invoked; a handler whose dependencies cannot be resolved is tried at most once", nil)
+	}
+	for ei, e := range q.Events {
+		if ei > 0 {
+			switch p := q.Events[ei-1].K; p {
+			case world.EvSpyRefuse:
+				lastRefuse = true
+			case world.EvEnter, world.EvNextRet, world.EvSwallow, world.EvExit:
+				lastRefuse = false
+			}
+		}
 		switch e.K {
-		case world.EvSpyHeader:
+		case world.EvSpyHeader, world.EvAttempt:
+			// "written to the response": the underlying writer got a status, or a handler wrote
+			// through the writer it was given (a write the framework swallows still counts)
 			written = true
 			if f := top(); f != nil {
 				f.wroteBetweenNexts = true
@@ -123,7 +164,7 @@ func Accept(q *world.Req, chain []world.Entry, name func(hid int) string) []Find
 			}
 			if idx < pos {
 				fail("R1-twice", "handler "+name(hid)+" started again or out of order (chain position "+itoa(idx)+" after "+itoa(pos-1)+")", nil)
-			} else if simsBetween(pos, idx) {
+			} else if startableBetween(pos, idx) {
 				sh := map[string]string{}
 				if f := top(); f != nil && f.nexts >= 2 {
 					sh["trigger"] = "repeated-next"
@@ -196,14 +237,18 @@ func Accept(q *world.Req, chain []world.Entry, name func(hid int) string) []Find
 			switch e.K {
 			case world.EvNextPanic:
 				if !unwinding {
-					// a panic raised by the framework itself between handlers (e.g. failed dependency
-					// resolution, a refused status while rendering a return value) — accepted, it
-					// starts an unwinding at the last handler that was started
+					// a panic raised by the framework itself between handlers (a failed dependency
+					// resolution, a refused status while rendering a return value) — it starts an
+					// unwinding at the last handler that was started
 					unwinding = true
 					panicIdx = pos - 1
+					frameworkPanic()
 				}
 				f.inNext = false
 			case world.EvSwallow:
+				if !unwinding {
+					frameworkPanic() // the handler recovered a panic nobody raised through the simulator
+				}
 				unwinding = false
 				skipContinueCheck = true
 			case world.EvNextRet:
@@ -222,6 +267,9 @@ func Accept(q *world.Req, chain []world.Entry, name func(hid int) string) []Find
 				trigger = trRunning
 			}
 		case world.EvEscaped:
+			if !unwinding {
+				frameworkPanic()
+			}
 			unwinding = false
 			skipContinueCheck = true
 		}
